@@ -64,6 +64,12 @@ def run(run_, pkg, tier):
             key = "C04-ii/assembly/%s" % scn.name
             if run_.wants(key):
                 tasks.append((key, "C04-ii-gauss-newton-step", assembly_obligation(scn), "%s:%d" % (gfn._gs_module, gfn.lineno)))
+    from ..assembly import real_edges_obligation
+    for kind in ("R2", "R3"):
+        for nm, fx, ffp in (("fix-first", (), True), ("fixed-last", (2,), False)):
+            key = "C04-ii/assembly/real-edges-%s/%s" % (kind, nm)
+            if run_.wants(key):
+                tasks.append((key, "C04-ii-gauss-newton-step", real_edges_obligation(kind, fx, ffp), "%s:%d" % (gfn._gs_module, gfn.lineno)))
     from .c02 import graph_own_vertices_obligation
     cfn = pkg.method("Graph", "calc_chi2")
     for cls in ("PoseR2", "PoseR3"):
@@ -71,7 +77,7 @@ def run(run_, pkg, tier):
         if run_.wants(key):
             tasks.append((key, "C04-i-own-vertices", graph_own_vertices_obligation(cls), "%s:%d" % (cfn._gs_module, cfn.lineno)))
     record(run_, tasks, run_tasks(pkg, tasks))
-    run_.floor("C04 obligations", len(tasks) if run_.only is None else 20, 20)
+    run_.floor("C04 obligations", len(tasks) if run_.only is None else 24, 24)
     if run_.only is None:
         def sel(f):
             relevant = f.rule.startswith("C03-d") or f.key.startswith(("C12-T2/first-iteration-solves", "C12-T2/test-before-solve",
